@@ -776,8 +776,8 @@ def t_val(v, tx):
 
 
 def t_model(n, edges, gids, radixes):
-    if isinstance(n, int):       # a spec: the constructor infers the graph size
-        n = (n, max([max(e) for e in edges], default=0) + 1)
+    if isinstance(n, int):       # a spec: graph size as the real constructor makes it
+        n = (n, mk_model(n, edges, gids, radixes).coupling_graph.num_qudits)
     return (f'(model {n[0]} {n[1]} (e' + ''.join(f' {a}-{b}' for a, b in edges)
             + ') (g' + ''.join(f' {g}' for g in gids) + ') (r'
             + ''.join(f' {r}' for r in radixes) + '))')
@@ -2090,6 +2090,9 @@ def real_runtime_cases(ck, rng, n, tables, max_wait):
     for case in cases:
         circuit = mk_circ(case['circ'])
         built.append((case, circuit, PassData(circuit)))
+    if os.environ.get('C11_DEBUG'):
+        with open('/tmp/C11-scratch/rtcases.pkl', 'wb') as f:
+            pickle.dump(cases, f)
     logf = tempfile.NamedTemporaryFile(prefix='c11log', suffix='.jsonl',
                                        delete=False)
     logf.close()
@@ -2102,8 +2105,15 @@ def real_runtime_cases(ck, rng, n, tables, max_wait):
                     'skipped: the machine-wide runtime lock was busy for '
                     f'{max_wait} s')
                 return []
-            with Compiler(num_workers=2) as compiler:
+            compiler = None
+            try:
                 for case, circuit, data in built:
+                    # a failing task closes the attached Compiler (client drops
+                    # the connection): start a fresh one for the next case
+                    if compiler is None or compiler.conn is None:
+                        if compiler is not None:
+                            compiler.close()
+                        compiler = Compiler(num_workers=2)
                     open(logf.name, 'w').close()
                     wf = mk_tree(case['tree'], case)
                     try:
@@ -2112,9 +2122,16 @@ def real_runtime_cases(ck, rng, n, tables, max_wait):
                         out = 'ok'
                     except Exception as e:
                         oc, od, out = None, None, 'raised:' + type(e).__name__
+                        if os.environ.get('C11_DEBUG'):
+                            print('runtime case raised:', case['kind'],
+                                  str(e)[-300:], repr(e.__cause__)[-300:],
+                                  flush=True)
                     with open(logf.name) as f:
                         log = [json.loads(l) for l in f if l.strip()]
                     results.append((oc, od, out, log))
+            finally:
+                if compiler is not None:
+                    compiler.close()
     finally:
         os.environ.pop('C11_LOGFILE', None)
         os.unlink(logf.name)
